@@ -138,7 +138,11 @@ def render_select(q, st):
     if q['wh']['k'] != 'none':
         parts.append('WHERE ' + render_expr(q['wh'], st))
     if q['ord']:
-        parts.append('ORDER BY ' + ', '.join(render_expr(o['e'], st) + (' DESC' if o['desc'] else '') for o in q['ord']))
+        # (an ORDER BY item that starts with an integer literal does not parse: `ORDER BY 9 - x` takes 9 for a column
+        # index and stops; such an expression is written in parentheses)
+        items = [render_expr(o['e'], st) for o in q['ord']]
+        items = ['(%s)' % t if t[:1].isdigit() else t for t in items]
+        parts.append('ORDER BY ' + ', '.join(t + (' DESC' if o['desc'] else '') for t, o in zip(items, q['ord'])))
     if q['lim'] >= 0:
         parts.append('LIMIT %d' % q['lim'])
     return ' '.join(parts)
